@@ -457,6 +457,10 @@ func Input(l *InputSharedVars, g *GlobalVarsMain, hPath *HFilePath, driConfig *C
 								LineInut(autoScanner)
 								for autoScanner.Scan() {
 									crpman := autoScanner.Text()
+									if len(crpman) < 3 {
+										// blank or truncated line
+										continue
+									}
 									if g.ToCropType(crpman[0:3]) == g.FRUCHT[SLFINDindex] {
 										if g.AUTOMAN {
 											if ValAsInt(crpman[4:8], autfil, crpman) == 0 {
@@ -552,6 +556,10 @@ func Input(l *InputSharedVars, g *GlobalVarsMain, hPath *HFilePath, driConfig *C
 								LineInut(autoScanner)
 								for autoScanner.Scan() {
 									crpman := autoScanner.Text()
+									if len(crpman) < 3 {
+										// blank or truncated line
+										continue
+									}
 									if g.ToCropType(crpman[0:3]) == g.FRUCHT[SLFINDindex] {
 										if g.ODU[SLFINDindex] == 1 {
 											g.DGART[SLFINDindex] = strings.TrimSpace(crpman[143:146])
